@@ -707,6 +707,13 @@ def _row_independence(check: Check):
       # every value train_loss returns is the *masked* loss: a return that sums the unmasked per-token loss counts padding tokens
       masks = [x for nd in ff.cfg.nodes if nd.ast is not None for x in nd.walk() if isinstance(x, ast.Compare) and len(x.ops) == 1 and isinstance(
           x.ops[0], ast.NotEq) and any(isinstance(y, ast.Name) and y.id == 'pad' for y in ast.walk(x))]
+      for mk in masks:
+        # the mask multiplies the per-token loss (loss * mask, loss *= mask): assigning the mask in place of the loss loses the loss
+        par = ff.module.parent_of.get(mk)
+        mult = (isinstance(par, ast.BinOp) and isinstance(par.op, ast.Mult)) or (isinstance(par, ast.AugAssign) and isinstance(par.op, ast.Mult)) or (
+            isinstance(par, ast.Call) and (ff.ext(par.func) or '').split('.')[-1] in ('where', 'multiply'))
+        check.ob('R-ROW.masked', fi, txt(par)[:70] if par is not None else txt(mk), bool(mult),
+                 'the padding mask multiplies (or selects from) the per-token loss', node=mk, exact=True)
       if masks:
         for _, rv in ff.returns():
           if rv is None:
